@@ -36,8 +36,8 @@ def run(ctx):
     n, o = A.corpus(ctx, THM)
     total_h += n
     total_ops += o
-    for tag, args in [("handles", ["--handles", "--seed", ctx.seed, "--count", 400 if quick else 8000, "--max-ops", 60 if quick else 150]),
-                      ("handles2", ["--handles", "--seed", ctx.seed + 101, "--count", 200 if quick else 4000, "--max-ops", 120])]:
+    for tag, args in [("handles", ["--handles", "--seed", ctx.seed, "--count", 1200 if quick else 8000, "--max-ops", 60 if quick else 150]),
+                      ("handles2", ["--handles", "--seed", ctx.seed + 101, "--count", 600 if quick else 4000, "--max-ops", 120])]:
         stat, h, sample = A.campaign(ctx, args, tag, THM)
         total_ops += stat.get("ops", 0)
         total_h += stat.get("histories", 0)
